@@ -628,6 +628,28 @@ type ReplayFile struct {
 }
 
 func crashSite(stderr string) string {
+	if i := strings.Index(stderr, "WARNING: DATA RACE"); i >= 0 {
+		// name the first library function of each of the two stacks
+		var fns []string
+		seen := map[string]bool{}
+		for _, l := range strings.Split(stderr[i:], "\n") {
+			l = strings.TrimSpace(l)
+			if strings.HasPrefix(l, "codeberg.org/TauCeti/mangle-go/") {
+				fn := strings.TrimPrefix(l, "codeberg.org/TauCeti/mangle-go/")
+				if k := strings.Index(fn, "("); k > 0 && !strings.HasPrefix(fn, "(") {
+					fn = fn[:k]
+				}
+				if !seen[fn] {
+					seen[fn] = true
+					fns = append(fns, fn)
+				}
+				if len(fns) == 2 {
+					break
+				}
+			}
+		}
+		return "DATA RACE " + strings.Join(fns, " | ")
+	}
 	for _, l := range strings.Split(stderr, "\n") {
 		if strings.HasPrefix(l, "fatal error:") || strings.HasPrefix(l, "panic:") || strings.HasPrefix(l, "WARNING: DATA RACE") {
 			if len(l) > 80 {
